@@ -7,8 +7,8 @@ import (
 	"os"
 	"runtime"
 	"runtime/debug"
-	"strings"
 	"strconv"
+	"strings"
 	"sync"
 
 	"verifharness/evid"
